@@ -43,6 +43,12 @@ ASSUMPTIONS = [
     'event field is a string / integer / boolean',
     'ZooKeeper payloads are dictionaries and lists (nesting <= 2 enumerated, <= 3 random) of '
     'str/int/float/bool/None; top-level strings are outside the statement',
+    'LDAP lists: every list-typed attribute (args, tickets, keytabs, features, passthrough, '
+    'traits, vring cells, vring rule endpoints, partition systems, reservation traits) is also '
+    'exercised with repeated elements and in unsorted order (no schema has uniqueItems; the codec '
+    'copies lists element by element); C15.lossless demands the same multiset back, order may be '
+    'canonicalised.  A real LDAP server keeps attribute values as a set; that is outside the '
+    'pure to_entry/from_entry functions the property observes',
     'LDAP: entry = _remove_empty(to_entry(x)) as LdapObject.create stores it; round trip is '
     'stated on the normal form N = from_entry o to_entry (N(N(x)) = N(x), entry of N(x) '
     'injective per schema); from_entry is called without a DN',
@@ -147,12 +153,32 @@ def rnd_zk(rng):
     return t
 
 
+def _shake(rng, t):
+    """Re-draw every non-empty list of atoms in a tagged tree WITH replacement
+    from its own elements and a sibling of each (repeated elements, arbitrary
+    order, length 1..5); lists of objects keep their elements (keys stay
+    unique) but are shuffled."""
+    tag, x = t
+    if tag == 'd':
+        return ['d', [[k, _shake(rng, v)] for k, v in x]]
+    if tag != 'l' or not x:
+        return t
+    if all(e[0] in ('s', 'i') for e in x):
+        if rng.random() < 0.4:
+            return t
+        pool = list(x) + [['s', e[1] + '2'] if e[0] == 's' else ['i', e[1] + 1] for e in x]
+        return ['l', [rng.choice(pool) for _ in range(rng.randint(1, 5))]]
+    items = [_shake(rng, e) for e in x]
+    rng.shuffle(items)
+    return ['l', items]
+
+
 def rnd_ldap(rng, specs):
     schema = rng.choice(['partition', 'cellalloc', 'app'])
     pairs = []
     for f in specs[schema]:
         if rng.random() < 0.55:
-            pairs.append([f['k'], rng.choice(f['vs'])])
+            pairs.append([f['k'], _shake(rng, rng.choice(f['vs']))])
     return dict(schema=schema, obj=['d', pairs])
 
 
@@ -301,15 +327,27 @@ def replay(ctx, path):
     return _judge(ctx, records, {}, {})
 
 
+def _drop_dup_arg(items):
+    # what a de-duplicating encoder would yield: N(x) and N(N(x)) agree, one '-v' is gone
+    for key in ('n', 'd'):
+        for pair in items[0][key]['obj'][1]:
+            if pair[0] == 'args':
+                pair[1] = ['l', pair[1][1][:1]]
+
+
 def selftest(ctx):
     """DESIGN.md 4.4: (a) corrupt one recorded field -> TLC must name the
     clause; (b) code mutants -> the check must exit 1."""
     import copy
     from .. import codec_driver, selftest_util
     domain = _model_side(ctx)
+    dup_args = [v for v in domain['ldap'] if v['schema'] == 'app'
+                and any(k == 'args' and x[1] == [['s', '-v'], ['s', '-v']] for k, x in v['obj'][1])]
+    if not dup_args:
+        raise tlc.MachineryError('the enumerated LDAP domain has no application with args [-v, -v]')
     small = dict(uniq=[v for v in domain['uniq'] if '-' in v['app']][:6], rule=domain['rule'][:6],
-                 zk=[v for v in domain['zk'] if v[0] == 'd' and v[1]][:6])
-    good = codec_driver.record(small, ['uniq', 'rule', 'zk'])
+                 zk=[v for v in domain['zk'] if v[0] == 'd' and v[1]][:6], ldap=dup_args[:1])
+    good = codec_driver.record(small, ['uniq', 'rule', 'zk', 'ldap'])
     recs = {r['fmt']: r for r in good}
 
     def variant(fmt, name, fn):
@@ -322,9 +360,10 @@ def selftest(ctx):
         variant('rule', 'two rules share a file name', lambda it: it[4].update(enc=it[3]['enc'])),
         variant('uniq', 'unique name loses its last character', lambda it: it[1].update(enc=it[1]['enc'][:-1])),
         variant('zk', 'decoded payload value altered', lambda it: it[0]['d'][1][0].__setitem__(1, ['s', 'altered'])),
+        variant('ldap', 'normal form loses the repeated argument', _drop_dup_arg),
     ]
-    expect = ['C15.roundtrip', 'C15.injective', 'C15.idLen', 'C15.roundtrip']
-    lines = [3, 5, 2, 1]
+    expect = ['C15.roundtrip', 'C15.injective', 'C15.idLen', 'C15.roundtrip', 'C15.lossless']
+    lines = [3, 5, 2, 1, 1]
     problems = []
     verdicts, _ = _validate(good, 300)
     if any(f.startswith('C15.') for v in verdicts for f in v['fail']):
